@@ -58,6 +58,8 @@ func (r CReq) String() string {
 type CScenario struct {
 	Name    string   `json:"name"`
 	Threads [][]CReq `json:"threads"`
+	// DescKeys makes the bytewise order of the keys the reverse of their index order.
+	DescKeys bool `json:"desc_keys,omitempty"`
 }
 
 func att1(k int, s, t uint64) CReq {
@@ -122,13 +124,25 @@ func (e *concEnv) close() {
 	_ = os.RemoveAll(e.dir)
 }
 
-func (e *concEnv) freshKey() []byte {
+// freshKeys returns n never-used keys whose bytewise order is the same in every execution of a scenario
+// (ascending in the key index, or descending when desc is set): an implementation may legitimately order its lock
+// acquisition by key bytes, and the explorer must see the same enabled sets when it replays a prefix.
+func (e *concEnv) freshKeys(n int, desc bool) [][]byte {
 	e.keyCtr++
-	k := make([]byte, 48)
-	binary.LittleEndian.PutUint64(k[:8], e.keyCtr)
-	binary.LittleEndian.PutUint64(k[8:16], uint64(os.Getpid()))
-	k[47] = 0x7f
-	return k
+	keys := make([][]byte, n)
+	for i := range keys {
+		k := make([]byte, 48)
+		binary.BigEndian.PutUint64(k[:8], e.keyCtr)
+		binary.BigEndian.PutUint64(k[8:16], uint64(os.Getpid()))
+		if desc {
+			k[16] = byte(200 - i)
+		} else {
+			k[16] = byte(10 + i)
+		}
+		k[47] = 0x7f
+		keys[i] = k
+	}
+	return keys
 }
 
 var concCreds = &checker.Credentials{Client: "client1", RequestID: "r", IP: "10.0.0.1"}
@@ -323,10 +337,7 @@ func (e *concEnv) mkScenario(cs CScenario, lockOnly bool, wantLinearizable bool)
 		if err != nil {
 			panic(err)
 		}
-		keys := make([][]byte, nkeys)
-		for i := range keys {
-			keys[i] = e.freshKey()
-		}
+		keys := e.freshKeys(nkeys, cs.DescKeys)
 		var calls []*callRec
 		var bodies []func(s *sched.Sched)
 		for ti, th := range cs.Threads {
